@@ -2,7 +2,7 @@
    One-cycle form, with the README's literal 3 (the proof needs Gen.Consts.min_wait = 3, a constant
    regenerated from pkg/coordinator/rebalance.go on every run). *)
 From KV Require Import Base.Util Base.AMap Model.Coordinator Model.CoordCheck Model.Sidecar Model.World Proofs.CoordC01 Proofs.CoordCycle
-  Proofs.WorldProofs Proofs.WorldNoGap.
+  Proofs.WorldProofs Proofs.WorldNoGap Proofs.CoordHandover.
 Local Open Scope list_scope.
 Local Open Scope Z_scope.
 
@@ -19,6 +19,20 @@ Theorem C05_handover : forall o i sch k h c,
                 (c_state c = InTransfer /\ c_state c' = Normal \/ c_state c = c_state c').
 Proof. exact c05_handover. Qed.
 Print Assumptions C05_handover.
+
+(* ... and conversely the hand-over completes: once the source (in transfer) and the destination (normal) have both
+   scraped the target three times, garbage collection of this very cycle releases the source's copy and keeps the
+   destination's - under every order in which the shards are visited *)
+Theorem C05_handover_completes : forall o i s k k' h tar st,
+  NoDupReports i -> k <> k' ->
+  insync i k = true -> insync i k' = true ->
+  is_active (i_active i) h = true ->
+  afind h (reported i k) = Some tar -> c_state tar = InTransfer -> (3 <= c_times tar)%N ->
+  afind h (reported i k') = Some st -> c_state st = Normal -> (3 <= c_times st)%N ->
+  (forall j, j <> k -> j <> k' -> ~ In h (akeys (reported i j))) ->
+  ~ In h (keys_at (st_p1 (run_stages o i s)) k) /\ In h (keys_at (st_p1 (run_stages o i s)) k').
+Proof. exact handover_completes. Qed.
+Print Assumptions C05_handover_completes.
 
 (* the constant the code uses is the documented one *)
 Theorem C05_threshold_is_documented : Gen.Consts.min_wait = 3%N.
